@@ -44,8 +44,8 @@ COMMON_ASSUME = [
 ]
 
 prop("C01", "exploration",
-     quick=[("tracks", "fast", 1400), ("tracks", "san", 120)],
-     thorough=[("tracks", "fast", 60000), ("mixed", "fast", 20000), ("tracks", "san", 4000)],
+     quick=[("tracks", "fast", 1400), ("tracks", "san", 120), ("tracks_disk_faulty", "fast", 400)],
+     thorough=[("tracks", "fast", 60000), ("mixed", "fast", 20000), ("tracks", "san", 4000), ("tracks_disk_faulty", "fast", 20000)],
      relevant=["create_track_ok", "update_ok", "fixed_point_checked"],
      rule="seeded histories of create_track/update/rewrite/setters/reload over 1-4 tracks on a random schema; "
           "a run is non-trivial if at least one snapshot write was accepted and round-trip checked, and distinct if its "
@@ -80,8 +80,9 @@ prop("C09", "exploration",
           "listings compared with a sequence model; non-trivial = at least one order-affecting operation; distinct = new plan "
           "digest reaching a new observation hash")
 prop("C10", "exploration",
-     quick=[("mixed_disk", "fast", 1200), ("tracks_disk", "fast", 500)],
-     thorough=[("mixed_disk", "fast", 60000), ("tracks_disk", "fast", 30000), ("crates_disk", "fast", 30000)],
+     quick=[("mixed_disk", "fast", 1200), ("tracks_disk", "fast", 500), ("mixed_disk_faulty", "fast", 600)],
+     thorough=[("mixed_disk", "fast", 60000), ("tracks_disk", "fast", 30000), ("crates_disk", "fast", 30000),
+               ("mixed_disk_faulty", "fast", 30000), ("members_disk_faulty", "fast", 15000)],
      relevant=["reload_ok"],
      rule="any workload on an on-disk library with close (handles released in seeded order, optional clock jump) and "
           "load_database at seeded prefixes and at the end; full observation before/after compared; non-trivial = at least one "
@@ -142,8 +143,8 @@ prop("C03", "exploration",
      assumptions=["gap (stated in DESIGN): 1.x codec values no public call can construct (default != adjusted grid, is_adjusted "
                   "combinations) are not generated"])
 prop("C14", "fault_enumeration",
-     quick=[("atomic", "fast", 700)],
-     thorough=[("atomic", "fast", 12000), ("atomic", "san", 400)],
+     quick=[("atomic", "fast", 700), ("mixed_disk_faulty", "fast", 600)],
+     thorough=[("atomic", "fast", 12000), ("atomic", "san", 400), ("mixed_disk_faulty", "fast", 30000), ("tracks_disk_faulty", "fast", 15000)],
      relevant=["atomic_pairs"],
      rule="each run = (pre-state S from a seeded fault-free history on an on-disk library, one public mutating call); the call is "
           "dry-run from S, then re-executed from S once per fault position: every statement x {BUSY, ERROR, READONLY} (F1, "
